@@ -38,7 +38,8 @@ def op_strategy(resets=True, gens=True):
     flat = st.tuples(st.just("f"), BIG, SIDE, KS)
     rep = st.tuples(st.just("r"), SIDE, KS)
     noop = st.just(("o",))
-    alts = [(12, prog), (8, near), (3, flat), (3, rep), (1, noop)]
+    deep = st.tuples(st.just("d"), BIG, SIDE, KS)
+    alts = [(8, prog), (7, deep), (8, near), (3, flat), (3, rep), (1, noop)]
     if resets:
         alts.append((1, st.just(("x",))))
     if gens:
